@@ -28,6 +28,9 @@ ATYPE = enums.AttributeType
 KINDS = ["Name", "State", "Object Type", "Cryptographic Algorithm", "Cryptographic Length",
          "Cryptographic Usage Mask", "Operation Policy Name", "Object Group", "Application Specific Information",
          "Certificate Type", "Unique Identifier", "Sensitive", "Initial Date"]
+# KMIP 1.1 section 3: "Applies to Object Types: All Objects"
+ALL_OBJECTS = {"Unique Identifier", "Name", "Object Type", "Initial Date", "Object Group",
+               "Application Specific Information", "Operation Policy Name"}
 TEXTS = ["n0", "n1", "g0", "d0", "default", "public", "1", "2", "zz", ""]
 STATES = [ST.PRE_ACTIVE, ST.ACTIVE, ST.DEACTIVATED, ST.COMPROMISED]
 OTYPES = [OT.SYMMETRIC_KEY, OT.CERTIFICATE, OT.OPAQUE_DATA, OT.SECRET_DATA, OT.PUBLIC_KEY]
@@ -186,8 +189,13 @@ def per_object(kind1, kind2, obj_kind):
         for i, k in enumerate(kinds):
             if k != "Initial Date":
                 want = want and ref_match_one(k, snap, has, *sel[i])
-        # the attribute must also be applicable to the object's type
+        # the attribute must also be applicable to the object's type.  For the attributes the KMIP
+        # specification defines for *all* object types that is independent knowledge; for the
+        # others (where PyKMIP's objects and the specification differ in detail) the server's
+        # rule table is taken as the definition of "carries the attribute".
         for k in kinds:
+            if k in ALL_OBJECTS:
+                continue
             if not e._attribute_policy.is_attribute_applicable_to_object_type(k, o.object_type):
                 want = False
         got = list(resp.unique_identifiers)
@@ -195,7 +203,7 @@ def per_object(kind1, kind2, obj_kind):
     return h
 
 
-def list_level(n, with_dates):
+def list_level(n, with_dates, kinds=("SymmetricKey", "SecretData", "OpaqueObject")):
     """n stored objects with symbolic dates/owners/policies; optional Initial Date filters;
     symbolic offset and maximum; requester symbolic among owner/other."""
     def h(d0: int, d1: int, d2: int, own0: bool, own1: bool, own2: bool, pub0: bool, pub1: bool, pub2: bool,
@@ -223,7 +231,7 @@ def list_level(n, with_dates):
             return True
         objs = []
         for i in range(n):
-            o = mk_obj(["SymmetricKey", "SecretData", "OpaqueObject"][i], uid=i + 1,
+            o = mk_obj(kinds[i], uid=i + 1,
                        owner="alice" if owns[i] else "bob",
                        policy="public" if pubs[i] else "default", names=["n"], state=ST.ACTIVE, masks=[])
             o.initial_date = ds[i]
@@ -293,6 +301,13 @@ def conditions(tier):
                     timeout=600, part="list"))
     out.append(Cond("list-2-dates", "list_level", dict(n=2, with_dates=True),
                     bounds="2 objects as above plus 0-2 Initial Date filters with values 0..7", timeout=900, part="list"))
+    for tag, ks in (("pub-sym", ["PublicKey", "SymmetricKey"]), ("sym-pub", ["SymmetricKey", "PublicKey"]),
+                    ("cert-sym-pub", ["X509Certificate", "SymmetricKey", "PublicKey"]),
+                    ("sym-cert-priv", ["SymmetricKey", "X509Certificate", "PrivateKey"])):
+        out.append(Cond("list-%d-mixed-%s" % (len(ks), tag), "list_level", dict(n=len(ks), with_dates=False, kinds=ks),
+                        bounds="%d objects of kinds %s (publicly locatable and owner-only types under the default "
+                               "policy), dates 1..6, owner/other, default/public policy, offset and maximum absent or 0..4"
+                               % (len(ks), ks), timeout=900, part="list"))
     out.append(Cond("list-3-paging", "list_level", dict(n=3, with_dates=False),
                     bounds="3 objects, dates 1..6, owner/other, default/public policy, offset and maximum absent or 0..4",
                     timeout=1800 if thorough else 900, part="list"))
